@@ -10,6 +10,11 @@ names are dict keys).
 -/
 import EkwVerif.Lemmas.GraphExpand
 import EkwVerif.Lemmas.GraphFuse
+import EkwVerif.Lemmas.GraphExpandVal
+import EkwVerif.Lemmas.GraphFuseTotal
+import EkwVerif.Lemmas.GraphReorder
+import EkwVerif.Lemmas.GraphFuseM
+import EkwVerif.Lemmas.GraphJoin
 
 namespace EkwVerif.Graph
 open Aux
@@ -30,6 +35,60 @@ def exG : Graph :=
     sinks := [3, 4] }
 
 theorem exG_wf : exG.WF := ⟨by decide, by decide⟩
+
+/-! ### the traversal of `Transformer.transform` itself -/
+
+/-- TERMINATION of the generic traversal.  For every well-formed graph (a finite object graph whose
+nodes are listed in ANY order in which inputs refer to earlier entries, e.g. creation order), the
+`while todo:` loop of `Transformer.transform` stops after at most `|sinks| + 2·|nodes|` iterations
+(`visitOrder` runs the loop with exactly this bound and does not run out of it), and the order `ord` in
+which it finishes nodes — hands them to the callbacks — lists every node reachable from the sinks, and
+only those, exactly once, each after all the nodes its inputs refer to. -/
+theorem c11_traverse_terminates (g : Graph) (h : g.WF) :
+    ∃ ord, visitOrder g = some ord ∧ ord.Nodup ∧ (∀ i, i ∈ ord ↔ Reach g.nodes g.sinks i) ∧
+      ∀ i ∈ ord, ∀ n, g.nodes[i]? = some n → ∀ x ∈ n.inputs, x.2.1 ∈ ord ∧ ord.idxOf x.2.1 < ord.idxOf i := by
+  obtain ⟨ord, h1, h2, h3, h4⟩ := visit_result g h
+  have hord := ordOK_of_topo g.nodes ord h2
+  refine ⟨ord, h1, hord.nodup, fun i => ⟨h4 i, fun hr => ?_⟩, ?_⟩
+  · induction hr with
+    | root hs => exact h3 _ hs
+    | input _ hn hx ih =>
+      obtain ⟨n', hn', hp⟩ := hord.closed _ ih
+      rw [hn] at hn'; cases hn'
+      exact (hp _ hx).1
+  · intro i hi n hn x hx
+    obtain ⟨n', hn', hp⟩ := hord.closed i hi
+    rw [hn] at hn'; cases hn'
+    exact hp x hx
+
+/-- The graph as the callbacks see it — its nodes re-listed in finishing order (`reorder`), which is the
+list all other C11 theorems are about — is well formed, its sinks denote the same terms and, under every
+interpretation, have the same values as the sinks of the graph the traversal started from. -/
+theorem c11_traverse_reorder (g : Graph) (h : g.WF) :
+    ∃ ord, visitOrder g = some ord ∧ (reorder g ord).WF ∧ (reorder g ord).sinkDen = g.sinkDen ∧
+      ∀ {V : Type} (I : Interp V), ∀ s ∈ g.sinks, eval I (reorder g ord).nodes (ord.idxOf s) = eval I g.nodes s := by
+  obtain ⟨ord, h1, h2, h3, _⟩ := visit_result g h
+  have hord := ordOK_of_topo g.nodes ord h2
+  refine ⟨ord, h1, reorder_wf g h ord hord h3, ?_, ?_⟩
+  · simp only [Graph.sinkDen, reorder, List.map_map]
+    apply List.map_congr_left
+    intro s hs
+    exact den_reorder g.nodes h.nodes ord hord s (h3 s hs)
+  · intro V I s hs
+    exact eval_reorder I g.nodes h.nodes ord hord s (h3 s hs)
+
+/-- `asVisited` (what every driver run and every other theorem starts from) of a well-formed graph listed
+in any order is well formed and its sinks denote the same terms. -/
+theorem c11_traverse_as_visited (g : Graph) (h : g.WF) : (asVisited g).WF ∧ (asVisited g).sinkDen = g.sinkDen := by
+  obtain ⟨ord, h1, h2, h3, _⟩ := c11_traverse_reorder g h
+  simp only [asVisited, h1]
+  exact ⟨h2, h3⟩
+
+/-- non-vacuity: `exG` is listed in an order that is NOT the finishing order; the loop finishes its five
+nodes in the order a, c, b, w, name within the bound of 12 iterations -/
+example : visitOrder exG = some [0, 2, 1, 4, 3] := by decide
+example := c11_traverse_terminates exG exG_wf
+example := c11_traverse_reorder exG exG_wf
 
 /-! ### copy -/
 
@@ -59,6 +118,27 @@ theorem c11_rename (f : Name → Name) (g : Graph) (h : g.WF) :
 example : ∃ g', renameGraph (fun s => "main.".toList ++ s) exG = .ok g' ∧ g'.sinkDen = exG.sinkDen ∧
     g'.nodes = exG.nodes.map (renameNode fun s => "main.".toList ++ s) ∧ g'.sinks = exG.sinks :=
   c11_rename _ exG exG_wf
+
+/-! ### `Graph.__add__` and `join_namespaced` -/
+
+/-- `g1 + g2` is well formed and its sinks denote the sinks of `g1` followed by the sinks of `g2`. -/
+theorem c11_add (g1 g2 : Graph) (h1 : g1.WF) (h2 : g2.WF) :
+    (addGraphs g1 g2).WF ∧ (addGraphs g1 g2).sinkDen = g1.sinkDen ++ g2.sinkDen :=
+  ⟨wf_add g1 g2 h1 h2, sinkDen_add g1 g2 h1.sinks⟩
+
+/-- `join_namespaced(ns1=g1, ns2=g2, …)` succeeds for every non-empty family of well-formed graphs and any namespaces; the
+result is well formed and its sinks denote, in order, what the sinks of `g1`, `g2`, … denote. -/
+theorem c11_join (p : Name × Graph) (rest : List (Name × Graph)) (h : ∀ q ∈ p :: rest, q.2.WF) :
+    ∃ g', joinNamespaced (p :: rest) = .ok g' ∧ g'.WF ∧ g'.sinkDen = (p :: rest).flatMap (fun q => q.2.sinkDen) := by
+  obtain ⟨r, hr, hrwf, hrden, _⟩ := renameNs_spec p (h p (by simp))
+  obtain ⟨g', hg', hwf', hden'⟩ := join_fold rest (fun q hq => h q (by simp [hq])) r hrwf
+  refine ⟨g', by simp only [joinNamespaced, hr]; exact hg', hwf', ?_⟩
+  rw [hden', hrden]; simp
+
+example := c11_join ("left".toList, exG) [("right".toList, exG)] (by intro q hq; simp at hq; rcases hq with rfl | rfl <;> exact exG_wf)
+example : (match joinNamespaced [("l".toList, exG), ("r".toList, exG)] with
+    | .ok g' => (g'.nodes.length, g'.sinks, (g'.nodes.map fun (n : Node) => String.ofList n.name).take 2) | .error _ => (0, [], [])) =
+    (10, [3, 4, 8, 9], ["l.a", "l.b"]) := by decide
 
 /-! ### deduplicate -/
 
@@ -535,6 +615,350 @@ theorem exX_expands : expandGraph exExp exX = .ok exXResult := by rfl
 example := c11_expand_wiring exExp exX exXResult exX_expands
 example := c11_expand_consumer exExp exX exXResult exX_expands 2 _ rfl rfl 0 _ _ 1 rfl _ rfl _ rfl
 
+/-! ### expand: total correctness, the wiring inside the spliced sub-graph, values -/
+
+/-- membership in the sinks `_Expander.graph` collects -/
+theorem mem_xSinks (done : List XNode) (sinks : List Nat) (s : Nat) :
+    s ∈ xSinks (sinks.map (done.getD · (.node 0))) ↔
+      ∃ s0 ∈ sinks, match done.getD s0 (.node 0) with
+        | .node i => s = i
+        | .sub sg => s ∈ sg.leaves.map (·.2) ∨ s ∈ sg.innerSinks := by
+  simp only [xSinks, List.mem_flatMap, List.mem_map]
+  constructor
+  · rintro ⟨t, ⟨s0, hs0, rfl⟩, hst⟩
+    refine ⟨s0, hs0, ?_⟩
+    generalize done.getD s0 (.node 0) = t at hst ⊢
+    cases t with
+    | node i => simpa using hst
+    | sub sg => simpa using hst
+  · rintro ⟨s0, hs0, hst⟩
+    refine ⟨_, ⟨s0, hs0, rfl⟩, ?_⟩
+    generalize done.getD s0 (.node 0) = t at hst ⊢
+    cases t with
+    | node i => simpa using hst
+    | sub sg => simpa using hst
+
+/-- (Stated for `Splicer` subclasses with overridden `splice_source` / `splice_sink` satisfying `SpliceOK`; the methods of
+`Splicer` itself are the instance `defaultSplice`, see `c11_expand_total`.)
+TOTAL correctness of `expand_graph`: on every well-formed graph, for every expander whose answers
+are in the (decidable) domain `expandOK` — each sub-graph is a graph, an explicit input map names only
+inputs the node has, every CONSUMED output of an expanded node selects a sub-graph sink that gets or has
+a default output — the transformation returns; the result is well formed (no dangling input, every
+input refers to a declared output of an EARLIER node: acyclic; sinks exist) and its nodes are named
+exactly `expNames`: a kept node keeps its name, a spliced node is called `<node>.<sub-graph node>`. -/
+theorem c11_expand_total_custom (f : SpliceFns) (hf : SpliceOK f) (ex : Node → Option Expansion) (g : Graph) (h : g.WF)
+    (hok : expandOK ex g.nodes = true) :
+    ∃ g', expandGraphW f ex g = .ok g' ∧ g'.WF ∧ g'.nodes.map (·.name) = g.nodes.flatMap (expNames ex) := by
+  obtain ⟨out, done, hinv, hres⟩ := expand_result f hf (fun _ _ _ => ()) ex g h hok (expandSound_unit f ex g.nodes)
+  refine ⟨_, hres, ⟨hinv.wf, ?_⟩, hinv.names⟩
+  intro s hs
+  obtain ⟨s0, hs0, hst⟩ := (mem_xSinks done g.sinks s).1 hs
+  have hlt := h.sinks s0 hs0
+  have hn : g.nodes[s0]? = some g.nodes[s0] := List.getElem?_eq_getElem hlt
+  cases he : ex g.nodes[s0] with
+  | none =>
+    obtain ⟨ti, m, h1, h2, _⟩ := hinv.node s0 _ hn he
+    simp only [List.getD_eq_getElem?_getD, h1, Option.getD_some] at hst
+    subst hst
+    exact (List.getElem?_eq_some_iff.1 h2).1
+  | some e =>
+    obtain ⟨sg, h1, base, ins, _, _, _, hblk, _, hent, hinn⟩ := hinv.block s0 _ e hn he
+    obtain ⟨_, hsk, _⟩ := nodeExpOK_spec ((expandOK_spec hok).1 _ (List.getElem_mem hlt) e he)
+    simp only [List.getD_eq_getElem?_getD, h1, Option.getD_some] at hst
+    have hq : ∀ q ∈ e.sub.sinks, base + q < out.length := by
+      intro q hq
+      have hql := hsk q hq
+      exact (List.getElem?_eq_some_iff.1 (hblk q _ (List.getElem?_eq_getElem hql))).1
+    rcases hst with hst | hst
+    · obtain ⟨p, hp, rfl⟩ := List.mem_map.1 hst
+      obtain ⟨q, hqm, hpq⟩ := hent p hp
+      rw [hpq]; exact hq q hqm
+    · rw [hinn] at hst
+      obtain ⟨q, hqm, rfl⟩ := List.mem_map.1 hst
+      exact hq q (List.mem_filter.1 hqm).1
+
+/-- THE WIRING INSIDE A SPLICED SUB-GRAPH, exactly.  On the domain of `c11_expand_total` the result of
+`expand_graph` is described by an image `img` of the input's nodes:
+
+* a kept node has an image with its name, payload and outputs, whose inputs are (`InsOf`) the node's
+  inputs, each connected to what `get_output` of the image of its parent returns — `Node.get_output`
+  for a kept parent, `_Subgraph.get_output` (the default output of the selected leaf) for an expanded one;
+* an expanded node `n ↦ e` is replaced (`BlockAt`) by the block of store nodes
+  `base, base+1, …` = `e.sub.nodes.map (splicedNodeW f cfg base)` with
+  `cfg.inputs = cfgInputs ins e.inputMap` (`ins` = the re-wired inputs of `n`, as above):
+  sub-graph node `q` is called `n.name.<name>`, keeps its payload; a SOURCE whose name the input map
+  (or, without one, an equally named input of `n`) connects to input `k` becomes a processor with the
+  single input `"input"` = the re-wired input `k` of `n`; every other node keeps its inputs, re-pointed
+  into the block (`shiftIns base`); a proper SINK whose name the output map selects gets the default
+  output; the `_Subgraph` files under the leaf name selected for each output `o` the LAST sub-graph
+  sink of that name (`leafOf e o`), all leaves are sub-graph sinks, the inner sinks are exactly the
+  sinks whose name is not selected;
+* the sinks are the images of the sinks: of an expanded sink all leaves and inner sinks. -/
+theorem c11_expand_inner_wiring_custom (f : SpliceFns) (hf : SpliceOK f) (ex : Node → Option Expansion) (g : Graph) (h : g.WF)
+    (hok : expandOK ex g.nodes = true) :
+    ∃ (g' : Graph) (img : List XNode), expandGraphW f ex g = .ok g' ∧ img.length = g.nodes.length ∧
+      (∀ (i : Nat) (n : Node), g.nodes[i]? = some n → ex n = none →
+        ∃ ti m, img[i]? = some (.node ti) ∧ g'.nodes[ti]? = some m ∧ m.name = n.name ∧ m.payload = n.payload ∧
+          m.outputs = n.outputs ∧ InsOf g'.nodes img n.inputs m.inputs) ∧
+      (∀ (i : Nat) (n : Node) (e : Expansion), g.nodes[i]? = some n → ex n = some e →
+        ∃ sg, img[i]? = some (.sub sg) ∧ BlockAt f g'.nodes img n e sg) ∧
+      g'.sinks = xSinks (g.sinks.map (img.getD · (.node 0))) := by
+  obtain ⟨out, done, hinv, hres⟩ := expand_result f hf (fun _ _ _ => ()) ex g h hok (expandSound_unit f ex g.nodes)
+  refine ⟨_, done, hres, hinv.len, ?_, hinv.block, rfl⟩
+  intro i n hn he
+  obtain ⟨ti, m, h1, h2, h3, h4, h5, h6, _⟩ := hinv.node i n hn he
+  exact ⟨ti, m, h1, h2, h3, h4, h5, h6⟩
+
+/-- EXPANSION PRESERVES WHAT THE GRAPH COMPUTES, at full strength: for every interpretation `I` of
+the payloads, every graph, every expander in the domain whose sub-graphs denote the nodes they
+replace (`ExpandSound`: in every environment for the node's inputs, with the sub-graph's mapped sources
+fed per input map, the default output of the leaf selected for output `o` carries what the node computes
+at `o`), `expand_graph` returns a well-formed graph in which
+
+* every kept node — in particular every kept sink, whose image is a sink of the result — has an image
+  with the same name, payload, outputs and the SAME VALUE at every output;
+* for every expanded sink and each of its outputs that selects a usable leaf, that leaf is a sink of
+  the result and its default output carries the value of that output in the input graph. -/
+theorem c11_expand_value_custom {V : Type} (f : SpliceFns) (hf : SpliceOK f) (I : Interp V) (ex : Node → Option Expansion)
+    (g : Graph) (h : g.WF) (hok : expandOK ex g.nodes = true) (hs : ExpandSoundW f I ex g.nodes) :
+    ∃ g', expandGraphW f ex g = .ok g' ∧ g'.WF ∧
+      (∀ (i : Nat) (n : Node), g.nodes[i]? = some n → ex n = none →
+        ∃ t m, g'.nodes[t]? = some m ∧ m.name = n.name ∧ m.payload = n.payload ∧ m.outputs = n.outputs ∧
+          eval I g'.nodes t = eval I g.nodes i ∧ (i ∈ g.sinks → t ∈ g'.sinks)) ∧
+      (∀ s ∈ g.sinks, ∀ (n : Node) (e : Expansion), g.nodes[s]? = some n → ex n = some e →
+        ∀ o ∈ n.outputs, leafOK e o = true →
+          ∃ l ∈ g'.sinks, storeEnv I g'.nodes (l, defaultOutput) = storeEnv I g.nodes (s, o)) := by
+  obtain ⟨g', hres', hwf', _⟩ := c11_expand_total_custom f hf ex g h hok
+  obtain ⟨out, done, hinv, hres⟩ := expand_result f hf I ex g h hok hs
+  rw [hres] at hres'
+  cases hres'
+  refine ⟨_, hres, hwf', ?_, ?_⟩
+  · intro i n hn he
+    obtain ⟨ti, m, h1, h2, h3, h4, h5, _, h7⟩ := hinv.node i n hn he
+    refine ⟨ti, m, h2, h3, h4, h5, h7, ?_⟩
+    intro hi
+    refine (mem_xSinks done g.sinks ti).2 ⟨i, hi, ?_⟩
+    simp [List.getD_eq_getElem?_getD, h1]
+  · intro s hsk n e hn he o ho hl
+    obtain ⟨t, y, h1, h2, h3⟩ := hinv.outv s n hn o ho (fun e' he' => by rw [he] at he'; cases he'; exact hl)
+    obtain ⟨sg, h1', _⟩ := hinv.block s n e hn he
+    rw [h1] at h1'; cases h1'
+    simp only [xOutput, subgraphOutput] at h2
+    cases hl1 : sg.outputMap.lookup o with
+    | none => simp [hl1] at h2
+    | some lname =>
+      simp only [hl1] at h2
+      cases hl2 : sg.leaves.lookup lname with
+      | none => simp [hl2] at h2
+      | some l =>
+        simp only [hl2] at h2
+        obtain ⟨rfl, _⟩ := nodeOutput_ok h2
+        refine ⟨l, (mem_xSinks done g.sinks l).2 ⟨s, hsk, ?_⟩, h3.1⟩
+        simp only [List.getD_eq_getElem?_getD, h1, Option.getD_some]
+        exact Or.inl (List.mem_map.2 ⟨(lname, l), mem_of_lookup hl2, rfl⟩)
+
+/-- Names stay unique as far as the code can guarantee it: if the input's node names are unique and
+contain no `'.'`, and each sub-graph's node names are unique, the node names of the result are unique. -/
+theorem c11_expand_names_custom (f : SpliceFns) (hf : SpliceOK f) (ex : Node → Option Expansion) (g : Graph) (h : g.WF)
+    (hok : expandOK ex g.nodes = true)
+    (hn : (g.nodes.map (·.name)).Nodup) (hdot : ∀ n ∈ g.nodes, '.' ∉ n.name)
+    (hsub : ∀ n ∈ g.nodes, ∀ e, ex n = some e → (e.sub.nodes.map (·.name)).Nodup) :
+    ∃ g', expandGraphW f ex g = .ok g' ∧ (g'.nodes.map (·.name)).Nodup := by
+  obtain ⟨g', hres, _, hnames⟩ := c11_expand_total_custom f hf ex g h hok
+  exact ⟨g', hres, hnames ▸ expNames_nodup ex g.nodes hn hdot hsub⟩
+
+
+/-! the same for `Splicer` itself (`expand_graph(expand, graph)` with the default splicer) -/
+
+/-- `c11_expand_total_custom` for the default `Splicer`. -/
+theorem c11_expand_total (ex : Node → Option Expansion) (g : Graph) (h : g.WF) (hok : expandOK ex g.nodes = true) :
+    ∃ g', expandGraph ex g = .ok g' ∧ g'.WF ∧ g'.nodes.map (·.name) = g.nodes.flatMap (expNames ex) :=
+  c11_expand_total_custom defaultSplice spliceOK_default ex g h hok
+
+/-- `c11_expand_inner_wiring_custom` for the default `Splicer` (`splicedNodeW defaultSplice = splicedNode`: a mapped source
+becomes `Node(name, s.outputs, s.payload, input=…)`, a selected sink `Node(name, None, s.payload, **inputs)`). -/
+theorem c11_expand_inner_wiring (ex : Node → Option Expansion) (g : Graph) (h : g.WF) (hok : expandOK ex g.nodes = true) :
+    ∃ (g' : Graph) (img : List XNode), expandGraph ex g = .ok g' ∧ img.length = g.nodes.length ∧
+      (∀ (i : Nat) (n : Node), g.nodes[i]? = some n → ex n = none →
+        ∃ ti m, img[i]? = some (.node ti) ∧ g'.nodes[ti]? = some m ∧ m.name = n.name ∧ m.payload = n.payload ∧
+          m.outputs = n.outputs ∧ InsOf g'.nodes img n.inputs m.inputs) ∧
+      (∀ (i : Nat) (n : Node) (e : Expansion), g.nodes[i]? = some n → ex n = some e →
+        ∃ sg, img[i]? = some (.sub sg) ∧ BlockAt defaultSplice g'.nodes img n e sg) ∧
+      g'.sinks = xSinks (g.sinks.map (img.getD · (.node 0))) :=
+  c11_expand_inner_wiring_custom defaultSplice spliceOK_default ex g h hok
+
+/-- `c11_expand_value_custom` for the default `Splicer`: EXPANSION PRESERVES WHAT THE GRAPH COMPUTES. -/
+theorem c11_expand_value {V : Type} (I : Interp V) (ex : Node → Option Expansion) (g : Graph) (h : g.WF)
+    (hok : expandOK ex g.nodes = true) (hs : ExpandSound I ex g.nodes) :
+    ∃ g', expandGraph ex g = .ok g' ∧ g'.WF ∧
+      (∀ (i : Nat) (n : Node), g.nodes[i]? = some n → ex n = none →
+        ∃ t m, g'.nodes[t]? = some m ∧ m.name = n.name ∧ m.payload = n.payload ∧ m.outputs = n.outputs ∧
+          eval I g'.nodes t = eval I g.nodes i ∧ (i ∈ g.sinks → t ∈ g'.sinks)) ∧
+      (∀ s ∈ g.sinks, ∀ (n : Node) (e : Expansion), g.nodes[s]? = some n → ex n = some e →
+        ∀ o ∈ n.outputs, leafOK e o = true →
+          ∃ l ∈ g'.sinks, storeEnv I g'.nodes (l, defaultOutput) = storeEnv I g.nodes (s, o)) :=
+  c11_expand_value_custom defaultSplice spliceOK_default I ex g h hok ((expandSoundW_default I ex g.nodes).2 hs)
+
+/-- `c11_expand_names_custom` for the default `Splicer`. -/
+theorem c11_expand_names (ex : Node → Option Expansion) (g : Graph) (h : g.WF) (hok : expandOK ex g.nodes = true)
+    (hn : (g.nodes.map (·.name)).Nodup) (hdot : ∀ n ∈ g.nodes, '.' ∉ n.name)
+    (hsub : ∀ n ∈ g.nodes, ∀ e, ex n = some e → (e.sub.nodes.map (·.name)).Nodup) :
+    ∃ g', expandGraph ex g = .ok g' ∧ (g'.nodes.map (·.name)).Nodup :=
+  c11_expand_names_custom defaultSplice spliceOK_default ex g h hok hn hdot hsub
+
+/-- non-vacuity of `SpliceOK` beyond the default: the two `Splicer` subclasses the correspondence check runs -/
+theorem spliceOK_tap : SpliceOK tapSplice := by
+  refine ⟨fun _ _ => by simp only [tapSplice]; decide, ?_, fun _ _ _ => by simp [tapSplice], ?_⟩
+  · intro name s o ho
+    simp only [tapSplice]
+    split
+    · exact ho
+    · exact List.mem_append_left _ ho
+  · intro name s keys sel hk hsel
+    simp only [tapSplice, Option.some.injEq] at hsel
+    subst hsel
+    refine ⟨?_, ?_⟩
+    · simp only [List.map_map]
+      unfold List.Nodup at hk ⊢
+      exact List.Pairwise.map _ (fun a b hab e => hab (List.append_cancel_right e)) hk
+    · intro x hx
+      obtain ⟨k, hk', rfl⟩ := List.mem_map.1 hx
+      exact hk'
+
+theorem spliceOK_first : SpliceOK firstSplice := by
+  refine ⟨fun _ _ => by simp [firstSplice, defaultSplice], fun _ _ o ho => ho, fun _ _ _ => by simp [firstSplice], ?_⟩
+  intro name s keys sel _ hsel
+  simp only [firstSplice, Option.some.injEq] at hsel
+  subst hsel
+  cases keys with
+  | nil => simp
+  | cons k ks => simp
+
+/-- non-vacuity for the expand theorems: `big` (inputs `a`, `b`; outputs `p`, `q`; a sink as well) is replaced
+by a sub-graph with two mapped sources (`ina ↦ a`, `inb ↦ b`), an independent source `k`, an inner node
+`mix`, the leaves `P` (selected for `p` by the output map) and `q` (selected by name) and an inner sink `log`. -/
+def exBig : Node :=
+  { name := "big".toList, outputs := ["p".toList, "q".toList], payload := 3,
+    inputs := [("a".toList, (0, defaultOutput)), ("b".toList, (1, "v".toList))] }
+
+def exY : Graph :=
+  { nodes := [ { name := "s1".toList, outputs := [defaultOutput], payload := 1, inputs := [] },
+               { name := "s2".toList, outputs := ["u".toList, "v".toList], payload := 2, inputs := [] },
+               exBig,
+               { name := "w".toList, outputs := [], payload := 4,
+                 inputs := [("x".toList, (2, "p".toList)), ("y".toList, (2, "q".toList)), ("z".toList, (1, "u".toList))] } ],
+    sinks := [3, 2] }
+
+def exBigExp : Expansion :=
+  { sub := { nodes := [ { name := "ina".toList, outputs := [defaultOutput], payload := 10, inputs := [] },
+                        { name := "inb".toList, outputs := [defaultOutput], payload := 11, inputs := [] },
+                        { name := "k".toList, outputs := [defaultOutput], payload := 12, inputs := [] },
+                        { name := "mix".toList, outputs := [defaultOutput, "r".toList], payload := 13,
+                          inputs := [("l".toList, (0, defaultOutput)), ("r".toList, (1, defaultOutput)), ("c".toList, (2, defaultOutput))] },
+                        { name := "P".toList, outputs := [], payload := 14, inputs := [("x".toList, (3, defaultOutput))] },
+                        { name := "q".toList, outputs := [], payload := 15,
+                          inputs := [("x".toList, (3, "r".toList)), ("y".toList, (0, defaultOutput))] },
+                        { name := "log".toList, outputs := [], payload := 16, inputs := [("x".toList, (3, defaultOutput))] } ],
+             sinks := [4, 5, 6] },
+    inputMap := some [("ina".toList, "a".toList), ("inb".toList, "b".toList)],
+    outputMap := some [("p".toList, "P".toList)] }
+
+def exYExp (n : Node) : Option Expansion := if n.name = "big".toList then some exBigExp else none
+
+theorem exY_wf : exY.WF := ⟨by decide, by decide⟩
+theorem exY_ok : expandOK exYExp exY.nodes = true := by decide
+
+/-- base interpretation of the atoms -/
+def bIY (p : Payload) (ins : Name → Option Nat) (o : Name) : Nat :=
+  match p with
+  | .atom n => n + 2 * o.length + 3 * ((ins "x".toList).getD 1) + 5 * ((ins "y".toList).getD 1) + 7 * ((ins "l".toList).getD 1) +
+      11 * ((ins "r".toList).getD 1) + 13 * ((ins "c".toList).getD 1) + 17 * ((ins inputName).getD 1) + 19 * ((ins "z".toList).getD 1)
+  | _ => 0
+
+/-- the payload of `big` (atom 3) MEANS its sub-graph -/
+def exIY : Interp Nat := fun p ins o =>
+  match p with
+  | .atom 3 => match leafOf exBigExp o with
+               | some q => ((subEval bIY ins exBig exBigExp)[q]?.map (· defaultOutput)).getD 0
+               | none => 0
+  | p => bIY p ins o
+
+example : (match expandGraph exYExp exY with | .ok g' => (g'.nodes.length, g'.sinks) | .error _ => (0, [])) = (10, [9, 6, 7, 8]) := by decide
+
+theorem exY_sound : ExpandSound exIY exYExp exY.nodes := by
+  intro n hn e he vin _ o ho q hq f hf
+  simp only [exY, List.mem_cons, List.mem_nil_iff, or_false] at hn
+  rcases hn with rfl | rfl | rfl | rfl
+  · simp [exYExp] at he
+  · simp [exYExp] at he
+  · simp only [exYExp, exBig, if_true, Option.some.injEq] at he
+    subst he
+    have hsub : subEval exIY vin exBig exBigExp = subEval bIY vin exBig exBigExp := by
+      unfold subEval
+      apply subEvalFrom_congr
+      intro m hm
+      simp only [exBigExp, List.mem_cons, List.mem_nil_iff, or_false] at hm
+      rcases hm with rfl | rfl | rfl | rfl | rfl | rfl | rfl <;> rfl
+    show f defaultOutput = exIY (.atom 3) vin o
+    simp only [exIY, hq, ← hsub, hf, Option.map_some, Option.getD_some]
+  · simp [exYExp] at he
+
+
+example := c11_expand_total exYExp exY exY_wf exY_ok
+example := c11_expand_inner_wiring exYExp exY exY_wf exY_ok
+example := c11_expand_value exIY exYExp exY exY_wf exY_ok exY_sound
+example := c11_expand_names exYExp exY exY_wf exY_ok (by decide) (by decide)
+  (by
+    intro n hn e he
+    simp only [exYExp] at he
+    split at he
+    · cases he; decide
+    · cases he)
+
+/-- the wiring of the example, spelled out: the mapped sources became processors on the inputs of `big`,
+the leaves got default outputs, `w` is connected to `big.P` and `big.q` -/
+example : (match expandGraph exYExp exY with
+    | .ok g' => g'.nodes.map fun (n : Node) => (String.ofList n.name, n.outputs.map String.ofList,
+        n.inputs.map fun (x : Name × Ref) => (String.ofList x.1, x.2.1, String.ofList x.2.2))
+    | .error _ => []) =
+  [("s1", ["0"], []), ("s2", ["u", "v"], []),
+   ("big.ina", ["0"], [("input", 0, "0")]), ("big.inb", ["0"], [("input", 1, "v")]), ("big.k", ["0"], []),
+   ("big.mix", ["0", "r"], [("l", 2, "0"), ("r", 3, "0"), ("c", 4, "0")]),
+   ("big.P", ["0"], [("x", 5, "0")]), ("big.q", ["0"], [("x", 5, "r"), ("y", 2, "0")]), ("big.log", [], [("x", 5, "0")]),
+   ("w", [], [("x", 6, "0"), ("y", 7, "0"), ("z", 1, "u")])] := by decide
+
+/-- Without the restriction on `'.'` the code does NOT keep names unique: node `a` expanded into a
+sub-graph node `b.c` and node `a.b` expanded into `c` are both called `a.b.c`. -/
+def exClash : Graph :=
+  { nodes := [ { name := "a".toList, outputs := [defaultOutput], payload := 1, inputs := [] },
+               { name := "a.b".toList, outputs := [defaultOutput], payload := 2, inputs := [] },
+               { name := "w".toList, outputs := [], payload := 3,
+                 inputs := [("x".toList, (0, defaultOutput)), ("y".toList, (1, defaultOutput))] } ],
+    sinks := [2] }
+
+def exClashExp (n : Node) : Option Expansion :=
+  if n.name = "a".toList then
+    some { sub := { nodes := [ { name := "b.c".toList, outputs := [defaultOutput], payload := 4, inputs := [] } ], sinks := [0] },
+           inputMap := none, outputMap := some [(defaultOutput, "b.c".toList)] }
+  else if n.name = "a.b".toList then
+    some { sub := { nodes := [ { name := "c".toList, outputs := [defaultOutput], payload := 5, inputs := [] } ], sinks := [0] },
+           inputMap := none, outputMap := some [(defaultOutput, "c".toList)] }
+  else none
+
+theorem c11_expand_names_clash :
+    exClash.WF ∧ expandOK exClashExp exClash.nodes = true ∧ (exClash.nodes.map (·.name)).Nodup ∧
+    (∀ n ∈ exClash.nodes, ∀ e, exClashExp n = some e → (e.sub.nodes.map (·.name)).Nodup) ∧
+    ∃ g', expandGraph exClashExp exClash = .ok g' ∧ ¬ (g'.nodes.map (·.name)).Nodup := by
+  refine ⟨⟨by decide, by decide⟩, by decide, by decide, ?_, ?_⟩
+  · intro n _ e he
+    simp only [exClashExp] at he
+    split at he
+    · cases he; decide
+    · split at he
+      · cases he; decide
+      · cases he
+  · refine ⟨(match expandGraph exClashExp exClash with | .ok g' => g' | .error _ => ⟨[], []⟩), by rfl, by decide⟩
+
 /-! ### fuse -/
 
 /-- Fusion keeps what the sinks compute.  For every interpretation `I` of the payloads and every
@@ -581,6 +1005,89 @@ theorem c11_fuse_inline {V : Type} (I : Interp V) (hI : RespectsFused I) (accept
     ∀ (k s : Nat), g.sinks[k]? = some s → ∃ s', g'.sinks[k]? = some s' ∧ eval I g'.nodes s' = eval I g.nodes s :=
   c11_fuse I (inlineFuse accept) (inlineFuse_sound I hI accept) g g' h hres
 
+/-- TOTAL correctness of `fuse_nodes`: on every well-formed graph, for every callback that answers
+with structurally sane nodes (`FuseStruct`: distinct input names, connected only to what the parent or
+the current node are connected to, at least the current node's outputs), the transformation returns and
+the result is well formed (no dangling input, acyclic, one sink per sink of the input). -/
+theorem c11_fuse_total (func : FuseFunc) (hs : FuseStruct func) (g : Graph) (h : g.WF) :
+    ∃ g', fuseGraph func g = .ok g' ∧ g'.WF ∧ g'.sinks.length = g.sinks.length := by
+  obtain ⟨⟨s, done⟩, hrun, hinv⟩ := fuseS_run func hs (countEdges g.nodes) g.nodes h.nodes
+  have hsk : ∀ x ∈ g.sinks, x < done.length := by
+    intro x hx; rw [hinv.doneLen]; exact h.sinks x hx
+  refine ⟨{ nodes := s.out, sinks := g.sinks.map (done.getD · 0) }, ?_, ⟨hinv.wf, ?_⟩, by simp⟩
+  · simp only [fuseGraph, transform, hrun, sinksOf_total done 0 g.sinks hsk]
+  · intro t ht
+    obtain ⟨x, hx, rfl⟩ := List.mem_map.1 ht
+    have hlt := h.sinks x hx
+    obtain ⟨t, m, h1, h2, _⟩ := hinv.doneOut x _ (List.getElem?_eq_getElem hlt)
+    simp only [List.getD_eq_getElem?_getD, h1, Option.getD_some]
+    exact (List.getElem?_eq_some_iff.1 h2).1
+
+/-- FUSION PRESERVES WHAT THE SINKS COMPUTE, at full strength (no "whenever it returns"): for every
+interpretation, every sound callback that keeps the current node's outputs and every well-formed graph,
+`fuse_nodes` returns a well-formed graph whose `k`-th sink has the value of the `k`-th sink of the input. -/
+theorem c11_fuse_value {V : Type} (I : Interp V) (func : FuseFunc) (hs : FuseSound I func)
+    (ho : ∀ (P C F : Node) (pout cin : Name), func P pout C cin = some F → ∀ o ∈ C.outputs, o ∈ F.outputs)
+    (g : Graph) (h : g.WF) :
+    ∃ g', fuseGraph func g = .ok g' ∧ g'.WF ∧ g'.sinks.length = g.sinks.length ∧
+      ∀ (k s : Nat), g.sinks[k]? = some s → ∃ s', g'.sinks[k]? = some s' ∧ eval I g'.nodes s' = eval I g.nodes s := by
+  obtain ⟨g', hres, hwf, hlen⟩ := c11_fuse_total func (fuseStruct_of_sound I func hs ho) g h
+  exact ⟨g', hres, hwf, hlen, (c11_fuse I func hs g g' h hres).2⟩
+
+/-- … in particular for the callback of the correspondence check, for every acceptance predicate. -/
+theorem c11_fuse_inline_value {V : Type} (I : Interp V) (hI : RespectsFused I) (accept : Node → Name → Node → Name → Bool)
+    (g : Graph) (h : g.WF) :
+    ∃ g', fuseGraph (inlineFuse accept) g = .ok g' ∧ g'.WF ∧ g'.sinks.length = g.sinks.length ∧
+      ∀ (k s : Nat), g.sinks[k]? = some s → ∃ s', g'.sinks[k]? = some s' ∧ eval I g'.nodes s' = eval I g.nodes s := by
+  refine c11_fuse_value I (inlineFuse accept) (inlineFuse_sound I hI accept) ?_ g h
+  intro P C F pout cin hF o ho
+  simp only [inlineFuse] at hF
+  split at hF
+  · cases hF
+  · split at hF
+    · cases hF
+    · split at hF
+      · cases hF
+      · cases hF; exact ho
+
+/-- FUSION WITH CALLBACKS THAT MAY MUTATE `current` AND RETURN IT (`FuseFuncM`; fresh answers are the special
+case `freshAns`, for which `fuseGraphM` IS `fuseGraph`).  For every interpretation, every callback whose answers are
+sound in content (`FuseSoundM`), every well-formed graph: `fuse_nodes` returns a well-formed graph (no dangling
+input, acyclic) with one sink per sink of the input, and the `k`-th sink has the value of the `k`-th sink of the input
+— whether an answer is a fresh node (a stale copy of the original node object stays behind and later callbacks see
+it) or the mutated node object itself.  Not covered: callbacks that answer with some OTHER existing node (e.g. the
+parent, mutated) or change `parent` in place. -/
+theorem c11_fuse_inplace_value {V : Type} (I : Interp V) (func : FuseFuncM) (hs : FuseSoundM I func) (g : Graph) (h : g.WF) :
+    ∃ g', fuseGraphM func g = .ok g' ∧ g'.WF ∧ g'.sinks.length = g.sinks.length ∧
+      ∀ (k s : Nat), g.sinks[k]? = some s → ∃ s', g'.sinks[k]? = some s' ∧ eval I g'.nodes s' = eval I g.nodes s := by
+  obtain ⟨⟨s, done⟩, hrun, hinv⟩ := fuseM_run I func hs (countEdges g.nodes) g.nodes h.nodes
+  have hsk : ∀ x ∈ g.sinks, x < done.length := by
+    intro x hx; rw [hinv.doneLen]; exact h.sinks x hx
+  refine ⟨{ nodes := s.out, sinks := g.sinks.map (done.getD · 0) }, ?_, ⟨hinv.wf, ?_⟩, by simp, ?_⟩
+  · simp only [fuseGraphM, transform, hrun, sinksOf_total done 0 g.sinks hsk]
+  · intro t ht
+    obtain ⟨x, hx, rfl⟩ := List.mem_map.1 ht
+    obtain ⟨t, m, h1, h2, _⟩ := hinv.doneOut x _ (List.getElem?_eq_getElem (h.sinks x hx))
+    simp only [List.getD_eq_getElem?_getD, h1, Option.getD_some]
+    exact (List.getElem?_eq_some_iff.1 h2).1
+  · intro k x hk
+    have hx := h.sinks x (List.mem_of_getElem? hk)
+    obtain ⟨t, m, h1, _, _, h4⟩ := hinv.doneOut x _ (List.getElem?_eq_getElem hx)
+    refine ⟨t, ?_, h4⟩
+    simp only [List.getElem?_map, hk, Option.map_some, List.getD_eq_getElem?_getD, h1, Option.getD_some]
+
+/-- the model of fresh-node callbacks (`fuseGraph`, all the theorems above) is the instance of the mutating model in which
+no answer mutates -/
+theorem c11_fuse_fresh_instance (func : FuseFunc) (g : Graph) : fuseGraphM (freshAns func) g = fuseGraph func g :=
+  fuseGraphM_fresh func g
+
+/-- … and the callback family of the correspondence check, with ANY choice of which answers mutate `current`, is sound. -/
+theorem c11_fuse_inplace_inline {V : Type} (I : Interp V) (hI : RespectsFused I) (accept inplace : Node → Name → Node → Name → Bool)
+    (g : Graph) (h : g.WF) :
+    ∃ g', fuseGraphM (inlineFuseM accept inplace) g = .ok g' ∧ g'.WF ∧ g'.sinks.length = g.sinks.length ∧
+      ∀ (k s : Nat), g.sinks[k]? = some s → ∃ s', g'.sinks[k]? = some s' ∧ eval I g'.nodes s' = eval I g.nodes s :=
+  c11_fuse_inplace_value I (inlineFuseM accept inplace) (inlineFuseM_sound I hI accept inplace) g h
+
 /-- an interpretation (into numbers) that respects fused payloads, by recursion on the payload -/
 def exI : Interp Nat
   | .atom n, ins, o => n + o.length + ((ins "x".toList).getD 7) * 3 + ((ins "y".toList).getD 5) * 11
@@ -611,6 +1118,13 @@ def exChainFused : Graph :=
   | .error _ => { nodes := [], sinks := [] }
 
 theorem exChain_fuses : fuseGraph (inlineFuse fun _ _ _ _ => true) exChain = .ok exChainFused := by rfl
+
+example := c11_fuse_inline_value exI exI_respects (fun _ _ _ _ => true) exChain exChain_wf
+example := c11_fuse_inplace_inline exI exI_respects (fun _ _ _ _ => true) (fun _ _ _ _ => true) exChain exChain_wf
+/-- with mutating answers the chain is fused into ONE object per node: 4 store nodes instead of 6 -/
+example : (match fuseGraphM (inlineFuseM (fun _ _ _ _ => true) (fun _ _ _ _ => true)) exChain with
+    | .ok g' => (g'.nodes.length, g'.sinks) | .error _ => (0, [])) = (4, [3]) := by decide
+example : FuseStruct (fun _ _ _ _ => none) := by intro P C F pout cin h; cases h
 
 example : exChainFused.sinks.length = exChain.sinks.length ∧
     ∀ (k s : Nat), exChain.sinks[k]? = some s →
